@@ -4,6 +4,7 @@ import Driver.Peers
 import Driver.Tower
 import Driver.Router
 import Driver.Codegen
+import Driver.Timeout
 open Anemo Anemo.Driver
 
 /-- state carried across lines by the stateful models -/
@@ -26,6 +27,7 @@ def step (st : DState) (line : String) : DState × String :=
     else if cmd.startsWith "auth." || cmd.startsWith "inflight." || cmd.startsWith "gcra." then
       let (ts, o) := towerOp st.tower cmd args
       ({ st with tower := ts }, o)
+    else if cmd.startsWith "timeout." then (st, timeoutOp cmd args)
     else if cmd.startsWith "codegen." then (st, codegenOp cmd args)
     else if cmd.startsWith "router." then
       let (rs, o) := routerOp st.router cmd args
